@@ -380,6 +380,9 @@ def P4_inverse(rep, flow: Flow, prep_fq="stabilizer_circuits.get_preparation_cir
     ro_f = flow.prog.func(ro_fq)
     for pi, r in enumerate(ros):
         for (_, _, term) in circuits_of(r.describe()):
+            unk = [leaf for (leaf, *_x) in t_leaves(term) if leaf[0] == "unknown"]
+            if unk:
+                raise AnalysisError(f"{ro_f.module.rel} {ro_f.qualname} return path #{pi}: the readout term contains an unmodelled part ({unk[0][1][:140]}): whether it still is the inverse of the preparation cannot be decided")
             got = norm_term(t_inv(term))
             if modulo_paulis:
                 got = norm_term(core_without_sign_layer(got, both_ends=True))
